@@ -113,8 +113,83 @@ let dump_world (w : world) =
                  (match v with None -> "D" | Some b -> if List.length b = 12 then canon (VVec b) else "f" ^ f32_canon b))
       (List.sort compare e.en_vol)) w.w_entities
 
-let () =
-  let casefile = Sys.argv.(1) and streamfile = Sys.argv.(2) and mode = Sys.argv.(3) in
+
+let rec nat_of_int i = if i = 0 then O else S (nat_of_int (i - 1))
+let rec int_of_nat = function O -> 0 | S n -> 1 + int_of_nat n
+let string_of_n (x : n) = match x with N0 -> "0" | Npos p -> string_of_z (Zpos p)
+
+(* ---------- type syntax:  u4 i2 f32 f64 vec12 str blob py mbox arr(T) arr3(T) dict0{6e616d65:T;...} user(T) ---------- *)
+let parse_type (s : Stdlib.String.t) : dtype =
+  let pos = ref 0 in
+  let n = String.length s in
+  let peek () = if !pos < n then s.[!pos] else '\000' in
+  let eat c = if peek () = c then incr pos else failwith (Printf.sprintf "type syntax: expected %c at %d in %s" c !pos s) in
+  let ident () = let st = !pos in
+    while !pos < n && (match s.[!pos] with 'a'..'z' | 'A'..'Z' -> true | _ -> false) do incr pos done; String.sub s st (!pos - st) in
+  let number () = let st = !pos in
+    while !pos < n && (match s.[!pos] with '0'..'9' -> true | _ -> false) do incr pos done;
+    if !pos = st then None else Some (int_of_string (String.sub s st (!pos - st))) in
+  let hexname () = let st = !pos in
+    while !pos < n && (match s.[!pos] with '0'..'9' | 'a'..'f' -> true | _ -> false) do incr pos done; unhex (String.sub s st (!pos - st)) in
+  let rec ty () =
+    let id = ident () in
+    match id with
+    | "u" -> (match number () with Some w -> TUInt (nat_of_int w) | None -> failwith "u?")
+    | "i" -> (match number () with Some w -> TInt (nat_of_int w) | None -> failwith "i?")
+    | "f" -> (match number () with Some 32 -> TF32 | Some 64 -> TF64 | _ -> failwith "f?")
+    | "vec" -> (match number () with Some w -> TVec (nat_of_int w) | None -> failwith "vec?")
+    | "str" -> TString | "blob" -> TBlob | "py" -> TPython | "mbox" -> TMailbox
+    | "arr" -> let sz = number () in eat '('; let e = ty () in eat ')';
+        TArray (e, (match sz with Some k -> Some (nat_of_int k) | None -> None))
+    | "user" -> eat '('; let e = ty () in eat ')'; TUser e
+    | "dict" -> let an = (match number () with Some 1 -> true | _ -> false) in eat '{';
+        let fields = ref [] in
+        while peek () <> '}' do
+          let name = hexname () in eat ':'; let t = ty () in
+          fields := (coq_string_of name, t) :: !fields;
+          if peek () = ';' then incr pos
+        done; eat '}'; TDict (List.rev !fields, an)
+    | _ -> failwith ("type syntax: " ^ id ^ " in " ^ s) in
+  let t = ty () in if !pos <> n then failwith ("type syntax: trailing input in " ^ s); t
+
+let split_ws l = List.filter (fun x -> x <> "") (String.split_on_char ' ' l)
+let iter_lines f = try while true do f (input_line stdin) done with End_of_file -> ()
+
+(* bits LO HI : change points of bits_requiredN on [LO, HI] *)
+let cmd_bits () =
+  let lo = int_of_string Sys.argv.(2) and hi = int_of_string Sys.argv.(3) in
+  let prev = ref (-1) in
+  for i = lo to hi do
+    let b = int_of_n (bits_requiredN (n_of_int i)) in
+    if b <> !prev then (Printf.printf "%d %d\n" i b; prev := b)
+  done
+
+(* bitread : lines "<hex bytes|-> w1,w2,..." -> "OK v1,v2,.. <resthex|-> <bytes_read>" | "ERR <e>" *)
+let cmd_bitread () =
+  iter_lines (fun l ->
+    match split_ws l with
+    | [hx; ws] ->
+        let bs = bytes_of_string (unhex (if hx = "-" then "" else hx)) in
+        let ws = if ws = "-" then [] else List.map (fun w -> nat_of_int (int_of_string w)) (String.split_on_char ',' ws) in
+        (match rd_gets ws (rd_init bs) with
+         | Ok (vs, r) -> Printf.printf "OK %s %s %d\n" (String.concat "," (List.map string_of_n vs))
+                           (let h = hex_of_bytes (rd_rest r) in if h = "" then "-" else h) (int_of_nat (rd_bytes_read r))
+         | Err e -> Printf.printf "ERR %s\n" (err_name e))
+    | _ -> failwith ("bitread: bad line " ^ l))
+
+(* decode : lines "<hdr> <type> <hex|->" -> "OK <canon> <resthex|->" | "ERR <e>" *)
+let cmd_decode () =
+  iter_lines (fun l ->
+    match split_ws l with
+    | [hdr; t; hx] ->
+        let bs = bytes_of_string (unhex (if hx = "-" then "" else hx)) in
+        (match decode (nat_of_int (int_of_string hdr)) (parse_type t) bs with
+         | Ok (v, rest) -> Printf.printf "OK %s %d\n" (canon v) (List.length rest)
+         | Err e -> Printf.printf "ERR %s\n" (err_name e))
+    | _ -> failwith ("decode: bad line " ^ l))
+
+let cmd_world () =
+  let casefile = Sys.argv.(2) and streamfile = Sys.argv.(3) and mode = Sys.argv.(4) in
   ic := open_in casefile;
   let dialect = next_line () in
   let alias = read_nodes () in
@@ -149,3 +224,11 @@ let () =
       (match er with Some e -> Printf.printf "RAISED %s\n" (err_name e) | None -> print_string "DONE\n");
       dump_world w
 
+
+let () =
+  match Sys.argv.(1) with
+  | "bits" -> cmd_bits ()
+  | "bitread" -> cmd_bitread ()
+  | "decode" -> cmd_decode ()
+  | "world" -> cmd_world ()
+  | c -> prerr_endline ("unknown command " ^ c); exit 2
